@@ -322,3 +322,89 @@ func (c *Ctx) nameSearchSkip(s *ErrSite) (string, bool) {
 	}
 	return "idiom (decided structurally): in-memory parse of an already-read header message while searching by name - the callee reaches no I/O primitive and the parsed name is compared with the requested one; an unparsable message cannot be the named one", true
 }
+
+func init() {
+	reg := registry["C17"]
+	reg.Meta.Rules["C17.4"] = "a deferred function does not overwrite the error the body is returning: a store to the function's named error result inside a deferred closure is made only where that result is known to be nil (`if err == nil { err = cerr }`)"
+	reg.Rules = append(reg.Rules, func(c *Ctx, r *Result) {
+		n := 0
+		for _, fn := range c.LibFuncs() {
+			if !ioPackage(fn) || fn.Blocks == nil {
+				continue
+			}
+			idx := errResultIndex(fn.Signature)
+			if idx < 0 {
+				continue
+			}
+			// the named error result: the variable the returns read their error from
+			var resVar *ssa.Alloc
+			for _, ret := range returnsOf(fn) {
+				if idx < len(ret.Results) {
+					if ld, ok := isLoad(ret.Results[idx]); ok {
+						if al, ok := ld.X.(*ssa.Alloc); ok {
+							resVar = al
+						}
+					}
+				}
+			}
+			if resVar == nil {
+				continue
+			}
+			instrs(fn, func(in ssa.Instruction) {
+				d, ok := in.(*ssa.Defer)
+				if !ok {
+					return
+				}
+				mc, ok := d.Call.Value.(*ssa.MakeClosure)
+				if !ok {
+					return
+				}
+				cl, ok := mc.Fn.(*ssa.Function)
+				if !ok {
+					return
+				}
+				for i, b := range mc.Bindings {
+					if b != ssa.Value(resVar) || i >= len(cl.FreeVars) {
+						continue
+					}
+					fv := cl.FreeVars[i]
+					instrs(cl, func(y ssa.Instruction) {
+						st, ok := y.(*ssa.Store)
+						if !ok || st.Addr != ssa.Value(fv) {
+							return
+						}
+						n++
+						// guarded by the nil side of a test of the same variable
+						guarded := false
+						for _, blk := range cl.Blocks {
+							ifi, ok := blk.Instrs[len(blk.Instrs)-1].(*ssa.If)
+							if !ok || blk.Succs[0] == blk.Succs[1] {
+								continue
+							}
+							bo, ok := ifi.Cond.(*ssa.BinOp)
+							if !ok || (bo.Op != token.EQL && bo.Op != token.NEQ) || !isNilConst(bo.Y) {
+								continue
+							}
+							ld, ok := isLoad(bo.X)
+							if !ok || ld.X != ssa.Value(fv) {
+								continue
+							}
+							// the load must not come after an earlier store in the closure (it must read the body's value)
+							nilSide := blk.Succs[0]
+							if bo.Op == token.NEQ {
+								nilSide = blk.Succs[1]
+							}
+							if edgeDominates(blk, nilSide, st.Block()) {
+								guarded = true
+							}
+						}
+						r.Check(guarded, "C17.4", c.Name(fn)+"#deferred-store-to-error-result", c.InstrPos(st), "the deferred function assigns the named error result only where it is nil; an unconditional assignment replaces the error the body returned (with nil, when the deferred call succeeds)")
+					})
+				}
+			})
+		}
+		if n == 0 {
+			r.Hold("C17.4", "module#no-deferred-store-to-error-result", "", "no deferred closure assigns a named error result")
+		}
+	})
+}
